@@ -797,10 +797,10 @@ func aliasTarget(addr ssa.Value) ssa.Value {
 		return nil
 	}
 	name = cell.Comment
+	refTyped := false
 	switch derefType(cell.Type()).Underlying().(type) {
 	case *types.Pointer, *types.Map, *types.Chan, *types.Slice, *types.Interface, *types.Signature:
-	default:
-		return nil
+		refTyped = true
 	}
 	var val ssa.Value
 	n := 0
@@ -828,12 +828,21 @@ func aliasTarget(addr ssa.Value) ssa.Value {
 		}
 	}
 	if ld, ok := val.(*ssa.UnOp); ok && ld.Op == token.MUL {
-		if _, isFA := ld.X.(*ssa.FieldAddr); isFA {
-			return val
+		if fa, isFA := ld.X.(*ssa.FieldAddr); isFA {
+			if refTyped {
+				return val
+			}
+			// a copy of a value-typed field is the same value as long as the field never changes after construction
+			if theWorld != nil && immutableFields(theWorld)[structName(fa.X.Type())+"."+fieldName(fa.X.Type(), fa.Field)] {
+				return val
+			}
 		}
 	}
 	return nil
 }
+
+// theWorld is the program being analysed (set once by main after loading).
+var theWorld *World
 
 // ---------- canonical symbolic rendering with call-through ----------
 
